@@ -44,7 +44,14 @@ import (
 	"verif/harness/internal/prog"
 )
 
-func TestMain(m *testing.M) { prog.Main(m) }
+func TestMain(m *testing.M) {
+	code := m.Run()
+	prog.Flush()
+	if p := raceLogPath(); p != "" {
+		_ = os.Remove(p)
+	}
+	os.Exit(code)
+}
 
 // ---- fixed material ------------------------------------------------------------------------
 
@@ -61,6 +68,7 @@ var shareSKHex = []string{
 	"3548db63ab5701878daf25fa877638dc7809778815b9d9ecd5369da33ca9e64f",
 	"66dd37ae71b35c81022cdde98370e881cff896b689fa9136917f45afce43fd3b",
 	"1f2e3d4c5b6a79880796a5b4c3d2e1f00112233445566778899aabbccddeeff0",
+	"2a3b4c5d6e7f8091a2b3c4d5e6f708192a3b4c5d6e7f8091a2b3c4d5e6f70819", // 4th share: multi-share concurrency test only
 }
 
 var (
@@ -105,14 +113,26 @@ func (c clockNet) EstimatedCurrentEpoch() phase0.Epoch {
 	return c.EstimatedEpochAtSlot(c.EstimatedCurrentSlot())
 }
 
-// faultDB passes everything to the real Badger store except reads of keys marked unreadable.
+// faultDB sits between ekm (NewSignerStorage / NewETHKeyManagerSigner get it as their basedb.Database) and
+// the real Badger store. It passes everything through except
+//   - reads of keys marked unreadable (error until the next restart),
+//   - the next failWrites Set/SetMany calls under the highest-attestation and/or highest-proposal prefix,
+//     which are NOT performed and return an error (the storage medium refused the write).
+//
+// Using(nil)/UsingReader(nil) return the wrapper, as BadgerDB returns itself.
 type faultDB struct {
 	basedb.Database
 	mu         sync.Mutex
 	unreadable map[string]bool
+	failWrites int    // remaining writes to fail
+	failScope  string // att | prop | both
+	fired      int    // writes failed so far
 }
 
-var errInjectedRead = errors.New("injected read error")
+var (
+	errInjectedRead  = errors.New("injected read error")
+	errInjectedWrite = errors.New("injected write error")
+)
 
 func (f *faultDB) Get(prefix []byte, key []byte) (basedb.Obj, bool, error) {
 	f.mu.Lock()
@@ -124,16 +144,71 @@ func (f *faultDB) Get(prefix []byte, key []byte) (basedb.Obj, bool, error) {
 	return f.Database.Get(prefix, key)
 }
 
+func (f *faultDB) arm(k int, scope string) {
+	f.mu.Lock()
+	f.failWrites, f.failScope = k, scope
+	f.mu.Unlock()
+}
+
+func (f *faultDB) firedCount() int {
+	f.mu.Lock()
+	defer f.mu.Unlock()
+	return f.fired
+}
+
+func (f *faultDB) failNow(prefix []byte) bool {
+	f.mu.Lock()
+	defer f.mu.Unlock()
+	if f.failWrites <= 0 {
+		return false
+	}
+	isAtt, isProp := string(prefix) == attPrefix, string(prefix) == propPrefix
+	if (isAtt && f.failScope != "prop") || (isProp && f.failScope != "att") {
+		f.failWrites--
+		f.fired++
+		return true
+	}
+	return false
+}
+
+func (f *faultDB) Set(prefix []byte, key []byte, value []byte) error {
+	if f.failNow(prefix) {
+		return errInjectedWrite
+	}
+	return f.Database.Set(prefix, key, value)
+}
+
+func (f *faultDB) SetMany(prefix []byte, n int, next func(int) (basedb.Obj, error)) error {
+	if f.failNow(prefix) {
+		return errInjectedWrite
+	}
+	return f.Database.SetMany(prefix, n, next)
+}
+
+func (f *faultDB) Using(rw basedb.ReadWriter) basedb.ReadWriter {
+	if rw == nil {
+		return f
+	}
+	return rw
+}
+
+func (f *faultDB) UsingReader(r basedb.Reader) basedb.Reader {
+	if r == nil {
+		return f
+	}
+	return r
+}
+
 // ---- program ------------------------------------------------------------------------------
 
 type Op struct {
-	Op   string `json:"op"`             // add remove react att blk clock restart lose
+	Op   string `json:"op"`             // add remove react att blk clock restart lose fault
 	Sh   int    `json:"sh,omitempty"`   // share index
 	DT   uint64 `json:"dt,omitempty"`   // att: target = clockEpoch-dt; blk: slot = clockSlot-dt
 	DS   uint64 `json:"ds,omitempty"`   // att: source = target-1-ds
 	V    int    `json:"v,omitempty"`    // content variant: same epochs/slot, different root
-	Kind string `json:"kind,omitempty"` // blk: full|blinded; lose: att|prop|both|unreadable-att|unreadable-prop
-	N    uint64 `json:"n,omitempty"`    // clock: slots to advance
+	Kind string `json:"kind,omitempty"` // blk: full|blinded; lose: att|prop|both|unreadable-att|unreadable-prop; fault: att|prop|both
+	N    uint64 `json:"n,omitempty"`    // clock: slots to advance; fault: number of record writes that fail next
 }
 
 type Prog struct {
@@ -471,8 +546,13 @@ func run(p Prog) (res *prog.Result) {
 			// idempotent re-execution after a crash before the registry transaction committed.
 			err := w.km.AddShare(shareSK[k])
 			if err != nil {
-				if errors.Is(err, errInjectedRead) || strings.Contains(err.Error(), errInjectedRead.Error()) {
+				if strings.Contains(err.Error(), errInjectedRead.Error()) {
 					classes["add-refused-unreadable"] = true
+					continue
+				}
+				if strings.Contains(err.Error(), errInjectedWrite.Error()) {
+					// the bump failed before saveShare: the account was not created
+					classes["add-refused-write-fault"] = true
 					continue
 				}
 				return discard(seqTest, "addshare-error")
@@ -510,6 +590,10 @@ func run(p Prog) (res *prog.Result) {
 					classes["reactivate-refused-unreadable"] = true
 					continue
 				}
+				if strings.Contains(err.Error(), errInjectedWrite.Error()) {
+					classes["reactivate-refused-write-fault"] = true
+					continue
+				}
 				return discard(seqTest, "bump-error")
 			}
 			gen[k][2]++
@@ -538,6 +622,11 @@ func run(p Prog) (res *prog.Result) {
 			w.fdb.mu.Unlock()
 			classes["lose-record:"+op.Kind] = true
 
+		case "fault":
+			// the next op.N writes of high-water marks (scope op.Kind) are refused by the storage
+			w.fdb.arm(int(op.N), op.Kind)
+			classes["write-fault-armed:"+op.Kind] = true
+
 		case "att":
 			if !added[k] {
 				count("skipped-op")
@@ -560,14 +649,22 @@ func run(p Prog) (res *prog.Result) {
 			unreadable := w.fdb.unreadable[attPrefix+string(pk)]
 			w.fdb.mu.Unlock()
 			chk := w.km.IsAttestationSlashable(pk, data)
+			firedBefore := w.fdb.firedCount()
 			sig, _, err := w.km.SignBeaconObject(data, attDomain, pk, spectypes.DomainAttester)
-			if (chk == nil) == (err == nil) {
+			faulted := w.fdb.firedCount() > firedBefore
+			switch {
+			case (chk == nil) == (err == nil):
 				count("check-agrees-with-sign")
-			} else {
+			case faulted:
+				count("check-ok-but-sign-failed-on-write-fault")
+			default:
 				count("check-disagrees-with-sign")
 			}
 			if err != nil || len(sig) == 0 {
 				switch {
+				case faulted:
+					classes["write-fault-during-sign:att:refused"] = true
+					count("att-refused-write-fault")
 				case !present || unreadable:
 					classes["refused:record-missing"] = true
 					count("att-refused-record-missing")
@@ -580,6 +677,10 @@ func run(p Prog) (res *prog.Result) {
 				continue
 			}
 			count("att-signed")
+			if faulted {
+				// released although the record write failed: it counts in the set like any other signature
+				classes["write-fault-during-sign:att:released"] = true
+			}
 			if !present {
 				return fail(res, "signed-without-record:att", "step %d: share %d attestation (source %d, target %d) was signed although no highest-attestation record exists in the db (clock epoch %d)", step, k, s, t, clockEpoch)
 			}
@@ -621,14 +722,22 @@ func run(p Prog) (res *prog.Result) {
 			unreadable := w.fdb.unreadable[propPrefix+string(pk)]
 			w.fdb.mu.Unlock()
 			chk := w.km.IsBeaconBlockSlashable(pk, phase0.Slot(slot))
+			firedBefore := w.fdb.firedCount()
 			sig, _, err := w.km.SignBeaconObject(obj, propDomain, pk, spectypes.DomainProposer)
-			if (chk == nil) == (err == nil) {
+			faulted := w.fdb.firedCount() > firedBefore
+			switch {
+			case (chk == nil) == (err == nil):
 				count("check-agrees-with-sign")
-			} else {
+			case faulted:
+				count("check-ok-but-sign-failed-on-write-fault")
+			default:
 				count("check-disagrees-with-sign")
 			}
 			if err != nil || len(sig) == 0 {
 				switch {
+				case faulted:
+					classes["write-fault-during-sign:blk:refused"] = true
+					count("blk-refused-write-fault")
 				case !present || unreadable:
 					classes["refused:record-missing"] = true
 					count("blk-refused-record-missing")
@@ -641,6 +750,9 @@ func run(p Prog) (res *prog.Result) {
 				continue
 			}
 			count("blk-signed")
+			if faulted {
+				classes["write-fault-during-sign:blk:released"] = true
+			}
 			if kind == "blinded" {
 				classes["blinded-block-signed"] = true
 			}
@@ -698,6 +810,7 @@ var opKinds = []string{
 	"remove", "remove",
 	"react", "react",
 	"lose",
+	"fault",
 }
 
 func genOp(t *rapid.T) Op {
@@ -715,9 +828,15 @@ func genOp(t *rapid.T) Op {
 		o.N = rapid.SampledFrom([]uint64{1, 1, 2, 5, 31, 32, 32, 33, 64, 70}).Draw(t, "n")
 	case "lose":
 		o.Kind = rapid.SampledFrom([]string{"att", "prop", "both", "unreadable-att", "unreadable-prop"}).Draw(t, "kind")
+	case "fault":
+		o.N = rapid.SampledFrom(faultK).Draw(t, "k")
+		o.Kind = rapid.SampledFrom([]string{"att", "prop", "both"}).Draw(t, "scope")
 	}
 	return o
 }
+
+// number of consecutive record writes that fail: up to 4, so that a bounded retry loop cannot hide the fault
+var faultK = []uint64{1, 2, 3, 3, 4, 4, 4}
 
 // genChunk draws one op or a short idiom that makes a later signature possible at all (the record is
 // pinned at the clock by AddShare / reactivation, so nothing is signable before the clock moved on).
@@ -747,7 +866,42 @@ func genChunk(t *rapid.T) []Op {
 		b.DT = rapid.SampledFrom([]uint64{0, 0, 0, 1}).Draw(t, "bdt")
 		return append(ops, a, b)
 	}
-	switch rapid.SampledFrom([]string{"one", "one", "one", "one", "one", "one", "adv-att", "adv-att", "adv-blk", "restart-sign", "readd-sign", "readd-sign", "react-sign", "lose-sign"}).Draw(t, "chunk") {
+	switch rapid.SampledFrom([]string{"one", "one", "one", "one", "one", "one", "adv-att", "adv-att", "adv-blk", "restart-sign", "readd-sign", "readd-sign", "react-sign", "lose-sign", "fault-att", "fault-att", "fault-blk"}).Draw(t, "chunk") {
+	case "fault-att":
+		// an attestation is requested while the record write fails, then one that conflicts with it (same
+		// target / surrounding / surrounded), in the same process or after a restart on the same db
+		ops := []Op{{Op: "clock", N: rapid.SampledFrom([]uint64{64, 70, 96}).Draw(t, "fcn")},
+			{Op: "fault", N: rapid.SampledFrom(faultK).Draw(t, "fk"), Kind: rapid.SampledFrom([]string{"att", "att", "both"}).Draw(t, "fs")}}
+		v := rapid.IntRange(0, 2).Draw(t, "fv")
+		wide := rapid.SampledFrom([]uint64{2, 3}).Draw(t, "fw")
+		var a, b Op
+		switch rapid.SampledFrom([]string{"double", "double", "surrounding", "surrounded"}).Draw(t, "fpat") {
+		case "double":
+			dt := rapid.SampledFrom([]uint64{0, 0, 1}).Draw(t, "fdt")
+			a = Op{Op: "att", Sh: sh, DT: dt, DS: rapid.SampledFrom([]uint64{0, 1}).Draw(t, "fds"), V: v}
+			b = Op{Op: "att", Sh: sh, DT: dt, DS: rapid.SampledFrom([]uint64{0, 1}).Draw(t, "fds2"), V: (v + 1) % 3}
+		case "surrounding":
+			a = Op{Op: "att", Sh: sh, DT: 1, DS: 0, V: v}
+			b = Op{Op: "att", Sh: sh, DT: 0, DS: wide, V: v}
+		default:
+			a = Op{Op: "att", Sh: sh, DT: 0, DS: wide, V: v}
+			b = Op{Op: "att", Sh: sh, DT: 1, DS: 0, V: v}
+		}
+		ops = append(ops, a)
+		if rapid.IntRange(0, 3).Draw(t, "frs") == 0 {
+			ops = append(ops, Op{Op: "restart"})
+		}
+		return append(ops, b)
+	case "fault-blk":
+		ops := []Op{slots(), {Op: "fault", N: rapid.SampledFrom(faultK).Draw(t, "fk"), Kind: rapid.SampledFrom([]string{"prop", "prop", "both"}).Draw(t, "fs")}}
+		a := blk()
+		b := a
+		b.V = (a.V + 1) % 3
+		ops = append(ops, a)
+		if rapid.IntRange(0, 3).Draw(t, "frs") == 0 {
+			ops = append(ops, Op{Op: "restart"})
+		}
+		return append(ops, b)
 	case "adv-att":
 		return []Op{epochs(), att()}
 	case "adv-blk":
@@ -791,6 +945,8 @@ func TestPropNoSlashableSignature(t *testing.T) { prog.Check(t, "C04", seqTest, 
 func TestReplay(t *testing.T) {
 	prog.Replay(t, "C04", seqTest, run)
 	prog.Replay(t, "C04", concTest, runConc)
+	prog.Replay(t, "C04", msTest, func(p MSProg) *prog.Result { return runMS(msTest, p) })
+	prog.Replay(t, "C04", msRaceTest, func(p MSProg) *prog.Result { return runMS(msRaceTest, p) })
 }
 
 // ---- concurrency clause -------------------------------------------------------------------
@@ -1043,3 +1199,395 @@ func genConc(t *rapid.T) ConcProg {
 }
 
 func TestPropConcurrentSign(t *testing.T) { prog.Check(t, "C04", concTest, genConc, runConc) }
+
+// ---- concurrent requests for DIFFERENT shares ---------------------------------------------
+//
+// The ekm storage object is shared by all shares of the node and its read paths take only a read lock.
+// 2..4 shares, each with its own history, some with a much lower highest attestation than others, get
+// signing requests at the same time: one goroutine per share (never two for one share: that is the
+// dependency's deadlock, see above) runs the share's request list many times per round, while Spin more
+// goroutines hammer the slashing pre-check / record lookup of the LOW shares. Every share's released set is
+// judged against its own model; per share the requests are sequential, so the oracle is exact whatever
+// the schedule. The interference looked for: share A's slashing check sees share B's (lower) record.
+
+const (
+	msTest     = "TestPropConcurrentShares"
+	msRaceTest = "TestPropConcurrentSharesRace"
+)
+
+type MSReq struct {
+	Op   string `json:"op"` // att blk chk (chk = IsAttestationSlashable only)
+	DT   uint64 `json:"dt,omitempty"`
+	DS   uint64 `json:"ds,omitempty"`
+	V    int    `json:"v,omitempty"`
+	Kind string `json:"kind,omitempty"`
+}
+
+type MSRound struct {
+	Adv  uint64    `json:"adv"`  // slots the clock advances before the round
+	Reps int       `json:"reps"` // every share's list is run this many times, back to back
+	Reqs [][]MSReq `json:"reqs"` // per share
+}
+
+type MSProg struct {
+	Builder   bool      `json:"builder"`
+	StartSlot uint64    `json:"start_slot"`
+	Lag       []uint64  `json:"lag"`  // per share: epochs its duties (and its record) lag behind the clock; len = #shares
+	Spin      int       `json:"spin"` // goroutines spinning on pre-checks / record lookups of the low shares
+	Rounds    []MSRound `json:"rounds"`
+}
+
+type msShare struct {
+	atts     []attRec
+	blks     []blkRec
+	requests int
+	refusedC int // refused and conflicting with the own model
+	refusedN int // refused although not conflicting
+	chkOdd   int // pre-check returned nil for an attestation that conflicts with the own released set
+	fail     *prog.Failure
+}
+
+func runMS(test string, p MSProg) (res *prog.Result) {
+	setup()
+	if !clockSane {
+		return discard(test, "machine-clock-before-2021")
+	}
+	res = &prog.Result{}
+	n := len(p.Lag)
+	w, err := newWorld(false, true, false, p.Builder, p.StartSlot)
+	if err != nil {
+		return discard(test, "db-open")
+	}
+	defer w.close()
+	// shares with the largest lag are added first; the clock then moves on before the next is added
+	order := make([]int, n)
+	maxLag := uint64(0)
+	for i := range order {
+		order[i] = i
+		if p.Lag[i] > maxLag {
+			maxLag = p.Lag[i]
+		}
+	}
+	sort.SliceStable(order, func(a, b int) bool { return p.Lag[order[a]] > p.Lag[order[b]] })
+	startEpoch := p.StartSlot / slotsPerEpoch
+	for _, i := range order {
+		want := (startEpoch + maxLag - p.Lag[i]) * slotsPerEpoch
+		if cur := w.slot.Load(); want > cur {
+			w.slot.Store(want + p.StartSlot%slotsPerEpoch)
+		}
+		if err := w.km.AddShare(shareSK[i]); err != nil {
+			return discard(test, "addshare-error")
+		}
+	}
+	var low []int
+	for i := 0; i < n; i++ {
+		if p.Lag[i] == maxLag {
+			low = append(low, i)
+		}
+	}
+	shares := make([]*msShare, n)
+	for i := range shares {
+		shares[i] = &msShare{}
+	}
+	sp := w.km.(ekm.StorageProvider)
+
+	serve := func(i int, r MSReq) {
+		sh := shares[i]
+		pk := sharePK[i]
+		clockSlot := w.slot.Load()
+		sh.requests++
+		switch r.Op {
+		case "att", "chk":
+			t := clockSlot/slotsPerEpoch - p.Lag[i] - r.DT
+			s := t - 1 - r.DS
+			data := mkAtt(s, t, r.V)
+			root, _ := data.HashTreeRoot()
+			rec := attRec{s: s, t: t, root: root, step: sh.requests}
+			conflict, with := "", attRec{}
+			for _, a := range sh.atts {
+				if c := attConflict(a, rec); c != "" {
+					conflict, with = c, a
+					break
+				}
+			}
+			if r.Op == "chk" {
+				if w.km.IsAttestationSlashable(pk, data) == nil && conflict != "" {
+					sh.chkOdd++
+				}
+				return
+			}
+			sig, _, err := w.km.SignBeaconObject(data, attDomain, pk, spectypes.DomainAttester)
+			if err != nil || len(sig) == 0 {
+				if conflict != "" {
+					sh.refusedC++
+				} else {
+					sh.refusedN++
+				}
+				return
+			}
+			if conflict != "" && sh.fail == nil {
+				if conflict != "double-vote" {
+					conflict = "surround"
+				}
+				sh.fail = prog.Failf("C04:multishare:slashable-att:"+conflict,
+					"share %d (lag %d epochs) signed attestation (source %d, target %d, root %x) which conflicts with its own earlier attestation (source %d, target %d, root %x) while %d other share(s) were served concurrently (lags %v, %d pre-check spinners)",
+					i, p.Lag[i], s, t, root[:4], with.s, with.t, with.root[:4], n-1, p.Lag, p.Spin)
+			}
+			sh.atts = append(sh.atts, rec)
+		case "blk":
+			slot := clockSlot - p.Lag[i]*slotsPerEpoch - r.DT
+			kind := r.Kind
+			if !p.Builder {
+				kind = "full"
+			}
+			obj := mkBlk(slot, r.V, kind)
+			root, _ := obj.HashTreeRoot()
+			var with *blkRec
+			for k := range sh.blks {
+				if sh.blks[k].slot == slot && sh.blks[k].root != root {
+					with = &sh.blks[k]
+					break
+				}
+			}
+			sig, _, err := w.km.SignBeaconObject(obj, propDomain, pk, spectypes.DomainProposer)
+			if err != nil || len(sig) == 0 {
+				if with != nil {
+					sh.refusedC++
+				} else {
+					sh.refusedN++
+				}
+				return
+			}
+			if with != nil && sh.fail == nil {
+				sh.fail = prog.Failf("C04:multishare:double-proposal", "share %d signed a second, different block for slot %d (roots %x, %x) while other shares were served concurrently", i, slot, with.root[:4], root[:4])
+			}
+			sh.blks = append(sh.blks, blkRec{slot: slot, root: root})
+		}
+	}
+
+	for _, rd := range p.Rounds {
+		w.slot.Add(rd.Adv)
+		var signers, spinners sync.WaitGroup
+		var stop atomic.Bool
+		start := make(chan struct{})
+		for i := 0; i < n && i < len(rd.Reqs); i++ {
+			signers.Add(1)
+			go func(i int, reqs []MSReq) {
+				defer signers.Done()
+				<-start
+				for rep := 0; rep < rd.Reps; rep++ {
+					for _, r := range reqs {
+						serve(i, r)
+					}
+				}
+			}(i, rd.Reqs[i])
+		}
+		for j := 0; j < p.Spin; j++ {
+			spinners.Add(1)
+			go func(j int) {
+				defer spinners.Done()
+				i := low[j%len(low)]
+				pk := sharePK[i]
+				e := w.slot.Load()/slotsPerEpoch - p.Lag[i]
+				data := mkAtt(e-1, e, j%3)
+				<-start
+				for c := 0; !stop.Load(); c++ {
+					if c%2 == 0 {
+						_ = w.km.IsAttestationSlashable(pk, data)
+					} else {
+						_, _, _ = sp.RetrieveHighestAttestation(pk)
+					}
+				}
+			}(j)
+		}
+		close(start)
+		done := make(chan struct{})
+		go func() { signers.Wait(); stop.Store(true); spinners.Wait(); close(done) }()
+		select {
+		case <-done:
+		case <-time.After(120 * time.Second): // never a verdict: the case is simply not judged
+			stop.Store(true)
+			sharedMem = nil // somebody may still use it: never hand it to another case
+			w.raw = nil
+			return discard(test, "watchdog")
+		}
+	}
+
+	if reports := raceReports(); len(reports) > 0 {
+		for _, r := range reports {
+			if raceInCodeUnderTest(r) {
+				return fail(res, "data-race", "the race detector reports a data race inside the code under test while different shares are served concurrently:\n%s", r)
+			}
+			fmt.Printf("C04: race report outside the code under test (not judged):\n%s\n", r)
+			prog.Count(test, "race-report-outside-code-under-test", 1)
+		}
+	}
+	released, refusedC, refusedN, chkOdd, requests := 0, 0, 0, 0, 0
+	for _, sh := range shares {
+		if sh.fail != nil {
+			res.Fail = sh.fail
+			return res
+		}
+		released += len(sh.atts) + len(sh.blks)
+		refusedC += sh.refusedC
+		refusedN += sh.refusedN
+		chkOdd += sh.chkOdd
+		requests += sh.requests
+	}
+	prog.Count(test, "requests", requests)
+	prog.Count(test, "released", released)
+	prog.Count(test, "refused-conflicting", refusedC)
+	prog.Count(test, "refused-not-conflicting", refusedN)
+	prog.Count(test, "precheck-nil-for-conflicting(not judged)", chkOdd)
+	// non-trivial: at least two shares released signatures, and a share with a higher record refused conflicting requests
+	active := 0
+	for _, sh := range shares {
+		if len(sh.atts)+len(sh.blks) > 0 {
+			active++
+		}
+	}
+	res.NonTrivial = active >= 2 && refusedC > 0
+	res.Classes = []string{fmt.Sprintf("shares=%d", n), fmt.Sprintf("shares-releasing=%d", active)}
+	switch {
+	case maxLag == 0:
+		res.Classes = append(res.Classes, "record-gap=0")
+	case maxLag < 8:
+		res.Classes = append(res.Classes, "record-gap=1..7-epochs")
+	default:
+		res.Classes = append(res.Classes, "record-gap>=8-epochs")
+	}
+	if refusedC > 0 {
+		res.Classes = append(res.Classes, "conflicting-requests-refused-under-concurrency")
+	}
+	return res
+}
+
+func genMSReq(t *rapid.T) MSReq {
+	r := MSReq{Op: rapid.SampledFrom([]string{"att", "att", "att", "att", "chk", "blk"}).Draw(t, "op")}
+	r.DT = rapid.SampledFrom([]uint64{0, 0, 0, 1, 1, 2}).Draw(t, "dt")
+	r.V = rapid.IntRange(0, 2).Draw(t, "v")
+	if r.Op == "blk" {
+		r.Kind = rapid.SampledFrom([]string{"full", "blinded"}).Draw(t, "kind")
+	} else {
+		r.DS = rapid.SampledFrom([]uint64{0, 0, 1, 2, 3}).Draw(t, "ds")
+	}
+	return r
+}
+
+func genMS(t *rapid.T) MSProg {
+	n := rapid.IntRange(2, 4).Draw(t, "shares")
+	p := MSProg{
+		Builder:   rapid.Bool().Draw(t, "builder"),
+		StartSlot: rapid.Uint64Range(10*slotsPerEpoch, 12*slotsPerEpoch+31).Draw(t, "start"),
+		Spin:      rapid.IntRange(2, 16).Draw(t, "spin"),
+	}
+	// at least one share at the clock and, mostly, at least one far behind
+	for i := 0; i < n; i++ {
+		p.Lag = append(p.Lag, rapid.SampledFrom([]uint64{0, 0, 1, 3, 10, 25, 40}).Draw(t, "lag"))
+	}
+	p.Lag[rapid.IntRange(0, n-1).Draw(t, "hi")] = 0
+	nr := rapid.IntRange(2, 6).Draw(t, "rounds")
+	for r := 0; r < nr; r++ {
+		rd := MSRound{
+			Adv:  rapid.SampledFrom([]uint64{0, 1, 32, 32, 33, 64}).Draw(t, "adv"),
+			Reps: rapid.IntRange(4, 40).Draw(t, "reps"),
+		}
+		if r == 0 {
+			rd.Adv = 64 // the records were pinned at the clock by AddShare
+		}
+		for i := 0; i < n; i++ {
+			reqs := []MSReq{{Op: "att", V: rapid.IntRange(0, 2).Draw(t, "v0")}} // a fresh vote first, then mostly conflicting ones
+			reqs = append(reqs, rapid.SliceOfN(rapid.Custom(genMSReq), 1, 4).Draw(t, "reqs")...)
+			rd.Reqs = append(rd.Reqs, reqs)
+		}
+		p.Rounds = append(p.Rounds, rd)
+	}
+	return p
+}
+
+func TestPropConcurrentShares(t *testing.T) {
+	prog.Check(t, "C04", msTest, genMS, func(p MSProg) *prog.Result { return runMS(msTest, p) })
+}
+
+// Same programs under the race detector (thorough tier; GORACE=log_path=... lets the harness read the reports).
+func TestPropConcurrentSharesRace(t *testing.T) {
+	prog.Check(t, "C04", msRaceTest, genMS, func(p MSProg) *prog.Result { return runMS(msRaceTest, p) })
+}
+
+// ---- race detector reports ----------------------------------------------------------------
+
+var (
+	raceLogOff int64
+	raceLogMu  sync.Mutex
+)
+
+// raceLogPath returns the file the race runtime writes its reports to when GORACE contains log_path=<p>
+// (the runtime appends ".<pid>"). Without that setting (or in a build without -race) there is nothing to read.
+func raceLogPath() string {
+	for _, f := range strings.Fields(os.Getenv("GORACE")) {
+		if v, ok := strings.CutPrefix(f, "log_path="); ok && v != "" && v != "stderr" && v != "stdout" {
+			return fmt.Sprintf("%s.%d", v, os.Getpid())
+		}
+	}
+	return ""
+}
+
+// raceReports returns the race reports written since the last call.
+func raceReports() []string {
+	path := raceLogPath()
+	if path == "" {
+		return nil
+	}
+	raceLogMu.Lock()
+	defer raceLogMu.Unlock()
+	b, err := os.ReadFile(path)
+	if err != nil || int64(len(b)) <= raceLogOff {
+		return nil
+	}
+	fresh := string(b[raceLogOff:])
+	raceLogOff = int64(len(b))
+	var out []string
+	for _, blk := range strings.Split(fresh, "==================") {
+		if strings.Contains(blk, "WARNING: DATA RACE") {
+			out = append(out, strings.TrimSpace(blk))
+		}
+	}
+	return out
+}
+
+// raceInCodeUnderTest: both conflicting accesses have their innermost non-runtime frame in a package of
+// github.com/bloxapp/ssv (not in the harness, not in a dependency).
+func raceInCodeUnderTest(report string) bool {
+	lines := strings.Split(report, "\n")
+	accesses, inCUT := 0, 0
+	for i := 0; i < len(lines); i++ {
+		l := strings.TrimSpace(lines[i])
+		isAccess := false
+		for _, pfx := range []string{"Write at ", "Read at ", "Previous write at ", "Previous read at ", "Atomic write at ", "Previous atomic write at ", "Atomic read at ", "Previous atomic read at "} {
+			if strings.HasPrefix(l, pfx) {
+				isAccess = true
+			}
+		}
+		if !isAccess {
+			continue
+		}
+		accesses++
+		for j := i + 1; j < len(lines); j++ {
+			f := strings.TrimSpace(lines[j])
+			if f == "" {
+				break
+			}
+			if !strings.HasSuffix(f, ")") || strings.HasPrefix(f, "/") { // file:line lines
+				continue
+			}
+			if strings.HasPrefix(f, "runtime.") || strings.HasPrefix(f, "sync.") || strings.HasPrefix(f, "sync/atomic.") || strings.HasPrefix(f, "internal/") {
+				continue
+			}
+			if strings.HasPrefix(f, "github.com/bloxapp/ssv/") {
+				inCUT++
+			}
+			break
+		}
+	}
+	return accesses >= 2 && inCUT == accesses
+}
